@@ -560,6 +560,43 @@ def run(tier, seed, replay):
         if sig not in seen_g:
             seen_g.add(sig)
             rep.violation(core.Violation("C02:" + sig, what, data))
+    # the representation of a superoperator-type object is part of its labels: products, applications and sums of operands
+    # whose nested dims agree but whose representations differ are refused, like any other pair of labels that do not
+    # compose; with equal representations they are computed like the matrices and keep their tag; `!=` of the spaces is
+    # the negation of `==`
+    import itertools
+    for sub in ([2], [3], [2, 2]):
+        n_ = int(np.prod(sub))
+        for fmt in ("dense", "csr"):
+            sup = {r_: qutip.Qobj(rng.integers(-3, 4, (n_ * n_, n_ * n_)) + 1j * rng.integers(-3, 4, (n_ * n_, n_ * n_)), dims=[[sub, sub], [sub, sub]], superrep=r_).to(fmt) for r_ in ("super", "choi", "chi")}
+            ket = {r_: qutip.Qobj(rng.integers(-3, 4, (n_ * n_, 1)) + 0j, dims=[[sub, sub], [1]], superrep=r_).to(fmt) for r_ in ("super", "choi", "chi")}
+            for ra, rb in itertools.product(("super", "choi", "chi"), repeat=2):
+                A_, B_, k_ = sup[ra], sup[rb], ket[rb]
+                ops_ = {"A @ B": lambda: A_ @ B_, "A * B": lambda: A_ * B_, "A @ ket": lambda: A_ @ k_, "bra @ A": lambda: k_.dag() @ A_, "A + B": lambda: A_ + B_, "A - B": lambda: A_ - B_}
+                rep.evaluations += 1
+                rep.count("mixed-representations")
+                for nm_, fn_ in ops_.items():
+                    if nm_ == "bra @ A":
+                        ok_expected = (rb == ra)
+                    else:
+                        ok_expected = (ra == rb)
+                    try:
+                        out_ = fn_()
+                        raised = False
+                    except (TypeError, ValueError):
+                        raised = True
+                    except Exception as e:
+                        rep.violation(core.Violation("C02:mixed-representation-crash", f"{nm_} with representations {ra} / {rb} on {sub}: {type(e).__name__}: {e}"[:240], {"sub": sub, "reps": [ra, rb]}))
+                        continue
+                    if ok_expected and raised:
+                        rep.violation(core.Violation(f"C02:same-representation-refused:{nm_}", f"{nm_} of two '{ra}' operands on {sub} ({fmt}) is refused", {"sub": sub, "rep": ra}))
+                    elif not ok_expected and not raised:
+                        rep.violation(core.Violation(f"C02:mixed-representations-accepted:{nm_}", f"{nm_} with operands in the '{ra}' and '{rb}' representations on {sub} ({fmt}) is accepted (result tagged {getattr(out_, 'superrep', None)!r}) although their labels differ", {"sub": sub, "reps": [ra, rb], "op": nm_}))
+                    elif ok_expected and nm_ in ("A @ B", "A * B") and (out_.superrep != ra or np.abs(out_.full() - A_.full() @ B_.full()).max() > 1e-9):
+                        rep.violation(core.Violation(f"C02:same-representation-product:{nm_}", f"{nm_} of two '{ra}' operands is not the matrix product tagged '{ra}'", {"sub": sub, "rep": ra}))
+                for x_, y_ in ((A_._dims, B_._dims), (A_._dims[0], B_._dims[0]), (k_._dims, ket[ra]._dims)):
+                    if (x_ != y_) == (x_ == y_):
+                        rep.violation(core.Violation("C02:ne-not-negation-of-eq", f"labels {x_} and {y_} (representations {ra}, {rb}): == gives {x_ == y_} and != gives {x_ != y_}", {"sub": sub, "reps": [ra, rb]}))
     model = core.run_driver(lines)
     ndis, first = 0, None
     for (s, r), m in zip(specs, model[:len(specs)]):
